@@ -60,7 +60,7 @@ func cmdVerify(args []string) {
 	}
 	work, _ := os.MkdirTemp("", "gvc")
 	defer os.RemoveAll(work)
-	cfg := &SolverCfg{WorkDir: work, Quick: 3 * time.Second, Full: time.Duration(*timeout) * time.Second, Parallel: 16}
+	cfg := &SolverCfg{WorkDir: work, Quick: 3 * time.Second, Full: time.Duration(*timeout) * time.Second, Parallel: parallelism()}
 	bad := 0
 	for _, key := range P.Specs.Order {
 		c := P.Specs.Contracts[key]
